@@ -188,6 +188,9 @@ def run_once_serial(cfg, *, max_workers=None, prelude=False, around_run=None, wa
         import contextlib
         import io
         quiet = contextlib.redirect_stderr(io.StringIO()) if displays else contextlib.nullcontext()
+        if cfg.precached:
+            # the caller looks at the cache before the run (whatever a Lab remembers from that must not outlive the entry)
+            [lab.is_cached(t) for t in built.canon]
         try:
             with quiet, (around_run(backend) if around_run is not None else contextlib.nullcontext()):
                 res = lab.run_tasks(req, bust_cache=cfg.bust_cache, disable_progress=not displays, disable_top=not displays)
@@ -199,8 +202,10 @@ def run_once_serial(cfg, *, max_workers=None, prelude=False, around_run=None, wa
         ref = reference(spec, [i for i, _ in cfg.requested], precached=cfg.precached, faults=cfg.faults,
                         died=cfg.died, bust_cache=cfg.bust_cache, context=ctx, pre_context=ctx, corrupt=cfg.corrupt)
         metas = dict(backend.runner.metas) if backend.runner else {}
-        return Obs(cfg=cfg, ref=ref, events=backend.events, world=list(U.WORLD.log), outcome=outcome,
-                   req_tasks=req, built=built, storage=storage, metas=metas, choices=[])
+        o = Obs(cfg=cfg, ref=ref, events=backend.events, world=list(U.WORLD.log), outcome=outcome,
+                req_tasks=req, built=built, storage=storage, metas=metas, choices=[])
+        o.lab = lab
+        return o
     finally:
         lt_serial.run_or_load_task = orig
         storage.release()
